@@ -268,9 +268,14 @@ class ObsRef:
 
     # ------------------------------------------------------------------ links
     def _link(self, ref):
-        a, b = ref.split("<->")
-        ha, pa = a.split(":eth-")
-        hb, pb = b.split(":eth-")
+        try:
+            a, b = ref.split("<->")
+            ha, pa = a.split(":eth-")
+            hb, pb = b.split(":eth-")
+        except ValueError:
+            # not of the documented form <host>:eth-<n><-><host>:eth-<n> (the shipped UC7 files contain e.g. "SW:eth2<->PC:eth-1"):
+            # it names no link, so the leaf reads the default
+            return {"PROTOCOLS": {"ALL": 0}}
         for link in self.net.links.values():
             na, nb = link.endpoint_a._connected_node, link.endpoint_b._connected_node
             ea = (na.config.hostname if na else None, str(link.endpoint_a.port_num))
